@@ -187,17 +187,20 @@ def ref_tree(rs, ci, msg, mode="exact", fold_zero=False):
     fields = []
     for f in c.fields:
         v = getattr(msg, f.name)
+        # -0.0 is folded into 0.0 only where betterproto does not write a zero at all (an implicit-presence scalar, also the
+        # `value` of a wrapper); where a zero IS written - list element, map value, selected oneof member, optional - its sign counts
+        fz = fold_zero if f.elem.kind != "scalar" else False
         if f.card == "repeated":
-            fields.append(("list", [ref_elem(rs, f.elem, x, mode, fold_zero) for x in v]))
+            fields.append(("list", [ref_elem(rs, f.elem, x, mode, fz) for x in v]))
         elif f.card == "map":
-            fields.append(("map", key_sort([(scalar_tree(f.key.pt, k), ref_elem(rs, f.elem, x, mode, fold_zero)) for k, x in v.items()])))
+            fields.append(("map", key_sort([(scalar_tree(f.key.pt, k), ref_elem(rs, f.elem, x, mode, fz)) for k, x in v.items()])))
         elif f.card == "wrapper":
             fields.append(("some", ref_elem(rs, f.elem, v, mode, fold_zero, wraps=True)) if msg.HasField(f.name) else ("none",))
         elif f.group is not None:
             sel = msg.WhichOneof(f"g{f.group}") == f.name
-            fields.append(("some", ref_elem(rs, f.elem, v, mode, fold_zero)) if sel else ("none",))
+            fields.append(("some", ref_elem(rs, f.elem, v, mode, fz)) if sel else ("none",))
         elif f.card == "optional":
-            fields.append(("some", ref_elem(rs, f.elem, v, mode, fold_zero)) if msg.HasField(f.name) else ("none",))
+            fields.append(("some", ref_elem(rs, f.elem, v, mode, fz)) if msg.HasField(f.name) else ("none",))
         elif f.elem.kind in ("msg", "datetime", "timedelta"):
             if mode == "observable" and f.elem.kind != "msg":
                 fields.append(("some", ts_tree(v.seconds, v.nanos)))      # value only
@@ -232,19 +235,20 @@ def bp_tree(schema, ci, m, mode="observable", fold_zero=False):
     c = schema.classes[ci]
     fields = []
     for f in c.fields:
+        fz = fold_zero if f.elem.kind != "scalar" else False        # see ref_tree
         if f.group is not None:
             name, v = bp.which_one_of(m, f"g{f.group}")
-            fields.append(("some", bp_elem(schema, f.elem, v, mode, fold_zero)) if name == f.name else ("none",))
+            fields.append(("some", bp_elem(schema, f.elem, v, mode, fz)) if name == f.name else ("none",))
             continue
         v = getattr(m, f.name)
         if f.card == "repeated":
-            fields.append(("list", [bp_elem(schema, f.elem, x, mode, fold_zero) for x in v]))
+            fields.append(("list", [bp_elem(schema, f.elem, x, mode, fz) for x in v]))
         elif f.card == "map":
-            fields.append(("map", key_sort([(scalar_tree(f.key.pt, k), bp_elem(schema, f.elem, x, mode, fold_zero)) for k, x in v.items()])))
+            fields.append(("map", key_sort([(scalar_tree(f.key.pt, k), bp_elem(schema, f.elem, x, mode, fz)) for k, x in v.items()])))
         elif f.card == "wrapper":
             fields.append(("none",) if v is None else ("some", bp_elem(schema, f.elem, v, mode, fold_zero, wraps=True)))
         elif f.card == "optional":
-            fields.append(("none",) if v is None else ("some", bp_elem(schema, f.elem, v, mode, fold_zero)))
+            fields.append(("none",) if v is None else ("some", bp_elem(schema, f.elem, v, mode, fz)))
         elif f.elem.kind == "msg":
             fields.append(("some", bp_elem(schema, f.elem, v, mode, fold_zero)) if bp.serialized_on_wire(v) else ("none",))
         elif f.elem.kind in ("datetime", "timedelta"):
